@@ -996,7 +996,14 @@ func (*c13Prop) Run(cc Case) Verdict {
 			seqs = append(seqs, []c13Step{{"check", k}, {"check", 0}}) // aborted pass, then a clean one
 			seqs = append(seqs, []c13Step{{"check", 0}, {"check", k}}) // second pass with a failure
 		}
+		nEval, _ := c13Execute(&c.Tree, "eval", 0)
+		v.Probes["executions"]++
+		for k := 1; k <= nEval; k++ {
+			seqs = append(seqs, []c13Step{{"eval", k}, {"eval", 0}}) // failed evaluation, then a clean one
+		}
 		seqs = append(seqs,
+			[]c13Step{{"eval", 0}, {"eval", 0}},
+			[]c13Step{{"walk", 0}, {"walk", 0}},
 			[]c13Step{{"check", 0}, {"check", 0}},
 			[]c13Step{{"transform", 0}, {"check", 0}},
 			[]c13Step{{"transform", 0}, {"eval", 0}},
